@@ -120,7 +120,7 @@ func init() {
 		ID: "C14", Level: "exploration",
 		Rule: "each case draws an ordered pair of nodes of one of seven kinds (independent random nodes; single-attribute mutant at a reflection-enumerated site; equal copy with permuted set-valued attributes; empty-versus-absent collections; duplicated list elements; sub-second date change; map entries / list elements whose value is the empty string) " +
 			"and checks Diff(a,b) and Diff(b,a) against a reference comparator over ALL schema attributes found by reflection: nil iff no attribute differs (lists as sets, dates to the second), DiffCount == number of differing attributes, " +
-			"and apply(a, diff) reproduces b on every attribute. distinct = hash of the pair; non-trivial = at least one attribute differs.",
+			"and apply(a, diff) reproduces b on every attribute. Every fourth case diffs the same two values again after one of them was changed in place. distinct = hash of the pair; non-trivial = at least one attribute differs.",
 		Assumptions: []string{"separator-free text (nested persons and external references are identified by their flattened strings: known finding C13 flatstring-separator-collision)", "no nil elements inside repeated message fields"},
 		NCases: func(tier string) int {
 			if tier == "thorough" {
